@@ -383,3 +383,74 @@ def run_handler(F, cls, h, ip, d, s, sh, imm, nlit, regmap):
         m.literals = {k: (x.value() if x.value() is not None else 0) for k, x in ex.literals.items()}
         tr.append(m.step(v, where))
     return [m.get(regmap[i]) for i in range(8)], tr
+
+
+def rule_ss_hsem(ctx, R):
+    """SuperscalarHash emitter of the A64 back-end: the switch inside generateSuperscalarHash (IMUL_RCP excluded: its multiplier is loaded from the literal pool)"""
+    from rules import x86hsem as X
+    from astq import walk
+    F, hs = jit.handlers(ctx, 'a64')
+    cls = 'randomx::JitCompilerA64'
+    R.rule('A64-SS-HSEM', 'for each SuperscalarHash instruction kind except IMUL_RCP the words the A64 generateSuperscalarHash emits, given their architectural meaning on terms over r0..r7 (x0..x7), compute what specification '
+           'Table 6.1.1 prescribes and change no other VM register; every dst x src the generator can produce, boundary constants', min_instances=500)
+    R.saw(config='K2', unit='src/jit_compiler_a64.cpp')
+    g = F.func(cls + '::generateSuperscalarHash')
+    R.saw(fn=g['q'])
+    # the loop body that holds the switch over the instruction kind
+    loops = [x for x in walk(g['body']) if x['k'] in ('For', 'While') and astq.is_node(x.get('b')) and x['b']['k'] == 'Compound' and any(y['k'] == 'Switch' for y in x['b']['s'])]
+    if len(loops) != 1:
+        raise AnalysisBroken('A64-SS-HSEM: expected one loop whose body holds the switch over the instruction kind, found %d' % len(loops))
+    body = {'k': 'Compound', 's': [x for x in loops[0]['b']['s']]}
+    consts = [x for x in g['body']['s'] if x['k'] == 'Decl' and all(d.get('init') is not None and val(d['init']) is not None for d in x['d'])]
+    pseudo = dict(g, params=[], body={'k': 'Compound', 's': consts + body['s']})
+    iname = None
+    for x in body['s']:
+        if x['k'] == 'Decl':
+            for d_ in x['d']:
+                if 'Instruction' in (d_.get('ty') or ''):
+                    iname = d_['name']
+    if iname is None:
+        raise AnalysisBroken('A64-SS-HSEM: the Instruction local of the loop was not found')
+    types = {k: v for k, v in F.enum('randomx::SuperscalarInstructionType').items() if k not in ('COUNT', 'INVALID')}
+    where = '%s:%d' % (g['file'], g['line'])
+    regmap = list(range(8))
+    n = 0
+    for name, d, s, sh, imm in X.ss_cases(types):
+        if name == 'IMUL_RCP':
+            continue
+        n += 1
+        m = Machine(regmap)
+        ex = Exec(F, cls, None, {}, 64)
+        env0 = {'%s.dst' % iname: KB.const(8, d), '%s.src' % iname: KB.const(8, s), '%s.mod' % iname: KB.const(8, sh << 2), '%s.opcode' % iname: KB.const(8, types[name])}
+        ov = {'randomx::Instruction::getImm32': KB.const(32, imm), 'randomx::Instruction::getModShift': KB.const(32, sh)}
+        ex.run_with(pseudo, [], env0, ov)
+        tr, bad = [], None
+        if not ex.words:
+            bad = 'nothing is emitted'
+        for w, wh in ex.words:
+            v = w.value()
+            if v is None:
+                raise AnalysisBroken('A64-SS-HSEM: a word emitted at %s is not constant (%s)' % (wh, w.hexpat()))
+            tr.append(m.step(v, wh))
+        if bad is None:
+            got = [m.get(regmap[i]) for i in range(8)]
+            exp = X.ss_expected(name, d, s, sh, imm)
+            for i in range(8):
+                if got[i] != exp[i]:
+                    differs = None
+                    for vals in VALUATIONS:
+                        a_, b_ = term_eval(got[i].canon(), vals), term_eval(exp[i].canon(), vals)
+                        if a_ != b_:
+                            differs = (vals, a_, b_)
+                            break
+                    if differs is None:
+                        raise AnalysisBroken('A64-SS-HSEM: %s dst=r%d src=r%d: r%d is %s, the specification says %s; equivalence undecided' % (name, d, s, i, term_show(got[i], None), term_show(exp[i], None)))
+                    bad = 'r%d = %s after `%s` (specification: %s); e.g. the code gives %#x, the specification %#x' % (i, term_show(got[i], None), ' ; '.join(tr), term_show(exp[i], None), differs[1], differs[2])
+                    break
+        inst = 'superscalar %s dst=r%d src=r%d%s imm32=%#x' % (name, d, s, ' shift=%d' % sh if name == 'IADD_RS' else '', imm)
+        if bad:
+            R.violation(inst, where, expected='registers as in specification Table 6.1.1', found=bad)
+        else:
+            R.ok(inst, where)
+    if n < 500:
+        raise AnalysisBroken('A64-SS-HSEM: only %d cases evaluated' % n)
